@@ -35,7 +35,7 @@ def params_for(tier, seed):
         return dict(owners=["A", "B"], serials=serials, bodies=2, max_ops=4, page_sizes=[0, 1, 2],
                     queries="new", n_paths=30, path_len=14, n_deliver=8, chunks=12)
     return dict(owners=["A", "B"], serials=list(ALL_CLASSES), bodies=2, max_ops=5, page_sizes=[0, 1, 2, 3],
-                queries="new", n_paths=150, path_len=28, n_deliver=60, chunks=16)
+                queries="new", n_paths=100, path_len=28, n_deliver=40, chunks=16)
 
 
 def tla_set(xs):
@@ -179,7 +179,7 @@ class J3Result:
         self.tlc = None
 
 
-def validate(lines, p, keys_mod, scratch_dir, name, timeout=1500):
+def validate(lines, p, keys_mod, scratch_dir, name, timeout=3000):
     """Run CertTrace on one chunk of recorded lines."""
     path = os.path.join(scratch_dir, name + ".ndjson")
     with open(path, "w") as fh:
